@@ -2,9 +2,15 @@ import Bpmn.Props.C18
 import Bpmn.Props.C18Current
 open Bpmn.Props.C18
 #print axioms set_complete_sound
+#print axioms set_complete_sound_exec
 #print axioms set_complete_live
 #print axioms set_wait_reentrant
 #print axioms cease_set_once
+#print axioms message_flow_once
+#print axioms message_flow_live
+#print axioms member_behaves_alone
+#print axioms C18_partial
+#print axioms C18_not_holds
 #print axioms C18_counterexample_fast_process_missed
 #print axioms C18_counterexample_fast_instance_missed
 #print axioms C18_counterexample_double_close
@@ -13,4 +19,7 @@ open Bpmn.Props.C18
 #print axioms C18_counterexample_message_lost_at_completion
 #print axioms current_live
 #print axioms current_reentrant
+#print axioms current_verdict
+#print axioms current_full_statement_refuted
 #print axioms current_channels
+#print axioms current_add_before_spawn
